@@ -228,7 +228,8 @@ func modelConfigs(thorough bool) []mcfg {
 		{"ck1", compositeKinds, 1, 1, false},
 		{"ck2", compositeKinds, 2, 1, false},
 		{"ck3", []string{"Cm", "Cm:vn", "Cm:nv", "Cm:nn", "Cm:va", "C:vn"}, 3, 1, false},
-		{"bk", []string{"S:kb", "Mid", "Mid:kb", "Malt", "C:vb", "Cm", "Cm:vb", "Cm:bv"}, 3, 1, false},
+		{"bk", []string{"S:kb", "Mid", "Mid:kb", "Cm", "Cm:vb"}, 3, 1, false},
+		{"bk2", []string{"S:kb", "Mid", "Mid:kb", "Malt", "C:vb", "Cm", "Cm:vb", "Cm:bv"}, 2, 1, false},
 	}
 }
 
@@ -1293,7 +1294,11 @@ func main() {
 	// trace by trace.
 	lines := linesOf(jobsByID)
 	var tvWG sync.WaitGroup
-	tvSem := make(chan struct{}, 4) // one TLC process (1 worker) per variant, at most 4 at a time
+	tvPar := 4 // quick: one TLC process (1 worker) per variant, at most 4 at a time
+	if thorough {
+		tvPar = 1 // many chunks per variant: ValidateBatchWith already runs up to 6 TLC processes
+	}
+	tvSem := make(chan struct{}, tvPar)
 	for _, f := range fvs {
 		if c.Violations() >= 20 {
 			fmt.Fprintf(os.Stderr, "[c20] trace validation skipped: the replay already reported the maximum number of violations\n")
